@@ -1,6 +1,1831 @@
-//! C12 — not built yet.
-use crate::report::{Ctx, Reporter};
+//! C12 — body extractors never accept or buffer more than their configured limit.
+//!
+//! The real extractors (`Bytes`, `String`, `Json<T>`, `Form<T>`, `web::Payload::to_bytes_limited`,
+//! `MultipartForm<T>`) are driven through `FromRequest::from_request` with a `Payload::Stream`
+//! whose stream is a *probe*: it hands out exactly the scheduled wire chunks and records every
+//! `poll_next` call together with how much had been delivered before it.
+//!
+//! Oracle (per case, one body under one chunking):
+//!  (a) `accepted-over-limit` / `value-mismatch`: success ⇒ decoded length ≤ limit and the value
+//!      equals the decoded body;
+//!  (b) `missing-overflow`: decoded length > limit ⇒ the extractor's overflow error;
+//!  (c) `chunking-dependent`: the outcome class (and value) is the same under every chunking of the
+//!      same body (compared inside a group that shares body, limit, coding, and whether the
+//!      declared `Content-Length` is above the limit);
+//!  (d) `pull-after-limit`: no `poll_next` on the payload once the decoded size of what was already
+//!      delivered is above the limit.  Compressed bodies are sync-flushed after every plaintext
+//!      piece, so "decoded size delivered" is known exactly when wire chunks are flush-aligned and
+//!      as a lower bound (last flush point inside the delivered prefix) otherwise.  For multipart
+//!      the parser's own bounded read-ahead (`MultipartConfig::buffer_limit`) is added.
+//!  (e) counted only, never judged (`overflow-error-for-body-within-limit`): an overflow error although the decoded body is within the limit and no
+//!      `Content-Length` above the limit was declared ("limit" is documented as the maximum
+//!      *accepted* size).
+//! Tolerated: early rejection from a declared `Content-Length` above the limit even if the real
+//! body is small; which overflow variant is used; parse errors of deliberately unparsable bodies.
 
-pub fn run(_ctx: &Ctx, rep: &mut Reporter) {
-    rep.inconclusive("C12 monitor not built");
+use std::{
+    cell::{Cell, RefCell},
+    collections::BTreeMap,
+    io::{self, Write as _},
+    pin::Pin,
+    rc::Rc,
+    task::{Context, Poll},
+    time::Duration,
+};
+
+use actix_http::error::PayloadError;
+use actix_multipart::{
+    form::{
+        bytes::Bytes as MpBytes, discard_field, DuplicateField, FieldGroupReader, Limits, MultipartCollect,
+        MultipartForm, MultipartFormConfig, State,
+    },
+    Field, MultipartConfig, MultipartError,
+};
+use actix_web::{
+    dev::Payload,
+    error::{JsonPayloadError, UrlencodedError},
+    test::TestRequest,
+    web, App, FromRequest, HttpRequest, HttpResponse,
+};
+use bytes::Bytes;
+use actix_service::Service as _;
+use futures_core::{future::LocalBoxFuture, Stream};
+use serde_json::{json, Value};
+
+use crate::{
+    report::{guard, panic_site, Ctx, Reporter},
+    util::{esc_short, Rng},
+    world::exec::run_virtual,
+};
+
+// ------------------------------------------------------------------------------------------------
+// case description
+// ------------------------------------------------------------------------------------------------
+
+#[derive(Clone, Copy, PartialEq, Eq, Debug)]
+enum Ext {
+    Bytes,
+    Str,
+    Json,
+    Form,
+    /// `web::Payload::to_bytes_limited` (no content decoding: decoded body = wire bytes)
+    Tbl,
+    /// `MultipartForm`: the per-field limit is the one under test
+    MpField,
+    /// … the in-memory limit
+    MpMemory,
+    /// … the total limit
+    MpTotal,
+}
+
+impl Ext {
+    const ALL: [Ext; 8] =
+        [Ext::Bytes, Ext::Str, Ext::Json, Ext::Form, Ext::Tbl, Ext::MpField, Ext::MpMemory, Ext::MpTotal];
+    fn name(self) -> &'static str {
+        match self {
+            Ext::Bytes => "bytes",
+            Ext::Str => "string",
+            Ext::Json => "json",
+            Ext::Form => "form",
+            Ext::Tbl => "to_bytes_limited",
+            Ext::MpField => "mp-field",
+            Ext::MpMemory => "mp-memory",
+            Ext::MpTotal => "mp-total",
+        }
+    }
+    fn parse(s: &str) -> Option<Ext> {
+        Ext::ALL.iter().copied().find(|e| e.name() == s)
+    }
+    fn is_mp(self) -> bool {
+        matches!(self, Ext::MpField | Ext::MpMemory | Ext::MpTotal)
+    }
+    /// does the extractor wrap the payload in `Decompress`?
+    fn decodes(self) -> bool {
+        matches!(self, Ext::Bytes | Ext::Str | Ext::Json | Ext::Form)
+    }
+    /// does the extractor look at `Content-Length`?
+    fn reads_cl(self) -> bool {
+        self.decodes()
+    }
+}
+
+#[derive(Clone, Copy, PartialEq, Eq, Debug)]
+enum Coding {
+    Identity,
+    Gzip,
+    Deflate,
+    Br,
+    Zstd,
+}
+
+impl Coding {
+    #[cfg(feature = "ffi")]
+    const ALL: &'static [Coding] = &[Coding::Identity, Coding::Gzip, Coding::Deflate, Coding::Br, Coding::Zstd];
+    #[cfg(not(feature = "ffi"))]
+    const ALL: &'static [Coding] = &[Coding::Identity, Coding::Gzip, Coding::Deflate, Coding::Br];
+    fn name(self) -> &'static str {
+        match self {
+            Coding::Identity => "identity",
+            Coding::Gzip => "gzip",
+            Coding::Deflate => "deflate",
+            Coding::Br => "br",
+            Coding::Zstd => "zstd",
+        }
+    }
+    fn parse(s: &str) -> Option<Coding> {
+        [Coding::Identity, Coding::Gzip, Coding::Deflate, Coding::Br, Coding::Zstd]
+            .iter()
+            .copied()
+            .find(|e| e.name() == s)
+    }
+}
+
+#[derive(Clone, Copy, PartialEq, Eq, Debug)]
+enum Chunking {
+    /// the whole wire body in one chunk
+    One,
+    /// 1-byte plaintext pieces (for bodies over 2 KiB: 1-byte pieces in a window around the limit,
+    /// ≤ 8 KiB pieces elsewhere); wire chunks flush-aligned
+    Byte1,
+    /// random plaintext pieces, wire chunks flush-aligned
+    Random,
+    /// cuts at limit−1 and limit+1: one chunk straddles the limit
+    StraddleA,
+    /// cuts at limit and limit+1: the buffer is exactly full, then one more byte arrives
+    StraddleB,
+    /// random plaintext pieces (flush points), wire re-cut at random unaligned offsets
+    WireRandom,
+    /// wire re-cut into 1..3-byte chunks (first 6 KiB; larger chunks after that)
+    WireTiny,
+}
+
+impl Chunking {
+    const ALL: [Chunking; 7] = [
+        Chunking::One,
+        Chunking::Byte1,
+        Chunking::Random,
+        Chunking::StraddleA,
+        Chunking::StraddleB,
+        Chunking::WireRandom,
+        Chunking::WireTiny,
+    ];
+    fn name(self) -> &'static str {
+        match self {
+            Chunking::One => "one",
+            Chunking::Byte1 => "byte1",
+            Chunking::Random => "random",
+            Chunking::StraddleA => "straddle-a",
+            Chunking::StraddleB => "straddle-b",
+            Chunking::WireRandom => "wire-random",
+            Chunking::WireTiny => "wire-tiny",
+        }
+    }
+    fn parse(s: &str) -> Option<Chunking> {
+        Chunking::ALL.iter().copied().find(|e| e.name() == s)
+    }
+    fn wire_level(self) -> bool {
+        matches!(self, Chunking::WireRandom | Chunking::WireTiny)
+    }
+}
+
+#[derive(Clone, Copy, PartialEq, Eq, Debug)]
+enum Cl {
+    Absent,
+    True,
+    Low,
+    High,
+}
+
+impl Cl {
+    const ALL: [Cl; 4] = [Cl::Absent, Cl::True, Cl::Low, Cl::High];
+    fn name(self) -> &'static str {
+        match self {
+            Cl::Absent => "absent",
+            Cl::True => "true",
+            Cl::Low => "low",
+            Cl::High => "high",
+        }
+    }
+    fn parse(s: &str) -> Option<Cl> {
+        Cl::ALL.iter().copied().find(|e| e.name() == s)
+    }
+}
+
+#[derive(Clone, Debug)]
+struct Case {
+    ext: Ext,
+    limit: usize,
+    /// decoded body length (multipart: number of data bytes charged to the limit under test)
+    len: usize,
+    coding: Coding,
+    chunking: Chunking,
+    cl: Cl,
+    /// the payload stream returns `Pending` (self-woken) once before some chunks
+    pend: bool,
+    /// empty chunks are interleaved
+    empties: bool,
+    /// body content, split points, declared length variant, multipart layout
+    seed: u64,
+}
+
+impl Case {
+    fn to_json(&self) -> Value {
+        json!({
+            "ext": self.ext.name(), "limit": self.limit, "len": self.len, "coding": self.coding.name(),
+            "chunking": self.chunking.name(), "cl": self.cl.name(), "pend": self.pend, "empties": self.empties,
+            "seed": self.seed.to_string(),
+        })
+    }
+    fn from_json(v: &Value) -> Option<Case> {
+        Some(Case {
+            ext: Ext::parse(v["ext"].as_str()?)?,
+            limit: v["limit"].as_u64()? as usize,
+            len: v["len"].as_u64()? as usize,
+            coding: Coding::parse(v["coding"].as_str()?)?,
+            chunking: Chunking::parse(v["chunking"].as_str()?)?,
+            cl: Cl::parse(v["cl"].as_str()?)?,
+            pend: v["pend"].as_bool()?,
+            empties: v["empties"].as_bool()?,
+            seed: v["seed"].as_str()?.parse().ok()?,
+        })
+    }
+}
+
+/// relation of the body length to the limit (signature material)
+fn lenrel(len: usize, limit: usize) -> &'static str {
+    if len == limit {
+        "=L"
+    } else if len + 1 == limit {
+        "L-1"
+    } else if len == limit + 1 {
+        "L+1"
+    } else if len < limit {
+        "<L"
+    } else if len <= 2 * limit.max(1) {
+        "..2L"
+    } else {
+        ">2L"
+    }
+}
+
+fn limit_class(limit: usize) -> &'static str {
+    match limit {
+        0 => "0",
+        1 => "1",
+        2..=63 => "tiny",
+        64..=4095 => "small",
+        4096..=65_535 => "mid",
+        _ => "large",
+    }
+}
+
+// ------------------------------------------------------------------------------------------------
+// body generation (ground truth by construction)
+// ------------------------------------------------------------------------------------------------
+
+#[derive(Clone, Debug, PartialEq)]
+enum Val {
+    Raw(Vec<u8>),
+    Json(Value),
+    Form(Vec<(String, String)>),
+    Mp { a: Vec<Vec<u8>>, b: Option<Vec<u8>> },
+    /// the generated body is deliberately not parsable by the extractor (e.g. empty JSON)
+    Unparsable,
+}
+
+fn val_short(v: &Val) -> String {
+    match v {
+        Val::Raw(b) => format!("raw[{}] {}", b.len(), esc_short(b, 24)),
+        Val::Json(j) => {
+            let s = j.to_string();
+            format!("json[{}] {}", s.len(), esc_short(s.as_bytes(), 24))
+        }
+        Val::Form(p) => format!("form {} pairs, {} value bytes", p.len(), p.iter().map(|x| x.1.len()).sum::<usize>()),
+        Val::Mp { a, b } => format!(
+            "mp a={:?} b={:?}",
+            a.iter().map(|x| x.len()).collect::<Vec<_>>(),
+            b.as_ref().map(|x| x.len())
+        ),
+        Val::Unparsable => "unparsable".into(),
+    }
+}
+
+const WORDS: [&str; 8] = ["alpha ", "beta ", "limit ", "chunk ", "0123456789 ", "payload ", "z", "overflow-"];
+
+fn fill_text(rng: &mut Rng, n: usize, alnum_only: bool) -> Vec<u8> {
+    let mut out = Vec::with_capacity(n + 16);
+    let style = rng.below(3);
+    while out.len() < n {
+        match style {
+            0 => out.extend_from_slice(WORDS[rng.below(WORDS.len())].as_bytes()),
+            1 => out.push(b'a' + rng.below(26) as u8),
+            _ => {
+                let w = WORDS[rng.below(3)];
+                for _ in 0..rng.range(1, 40) {
+                    out.extend_from_slice(w.as_bytes());
+                }
+            }
+        }
+    }
+    out.truncate(n);
+    if alnum_only {
+        for b in out.iter_mut() {
+            if !b.is_ascii_alphanumeric() {
+                *b = b'_';
+            }
+        }
+    }
+    out
+}
+
+fn fill_bytes(rng: &mut Rng, n: usize) -> Vec<u8> {
+    match rng.below(3) {
+        0 => {
+            // incompressible
+            let mut out = Vec::with_capacity(n + 8);
+            while out.len() < n {
+                out.extend_from_slice(&rng.next().to_le_bytes());
+            }
+            out.truncate(n);
+            out
+        }
+        1 => fill_text(rng, n, false),
+        _ => {
+            // highly compressible with a few random islands
+            let mut out = vec![rng.next() as u8; n];
+            for _ in 0..(n / 512).min(64) {
+                let p = rng.below(n);
+                out[p] = rng.next() as u8;
+            }
+            out
+        }
+    }
+}
+
+/// (plaintext body, expected extracted value)
+fn gen_plain(ext: Ext, len: usize, rng: &mut Rng) -> (Vec<u8>, Val) {
+    match ext {
+        Ext::Bytes | Ext::Tbl => {
+            let b = fill_bytes(rng, len);
+            (b.clone(), Val::Raw(b))
+        }
+        Ext::Str => {
+            let b = fill_text(rng, len, false);
+            (b.clone(), Val::Raw(b))
+        }
+        Ext::Json => {
+            let body: Vec<u8> = if len == 0 {
+                vec![]
+            } else if len == 1 {
+                vec![b'0' + rng.below(10) as u8]
+            } else if len >= 8 && rng.chance(1, 2) {
+                // [1,1,1   ]
+                let k = (len - 3) / 2;
+                let pad = len - 3 - 2 * k;
+                let mut s = Vec::with_capacity(len);
+                s.extend_from_slice(b"[1");
+                for _ in 0..k {
+                    s.extend_from_slice(b",1");
+                }
+                s.resize(s.len() + pad, b' ');
+                s.push(b']');
+                s
+            } else {
+                let mut s = Vec::with_capacity(len);
+                s.push(b'"');
+                s.extend_from_slice(&fill_text(rng, len - 2, true));
+                s.push(b'"');
+                s
+            };
+            debug_assert_eq!(body.len(), len);
+            let val = match serde_json::from_slice::<Value>(&body) {
+                Ok(v) => Val::Json(v),
+                Err(_) => Val::Unparsable,
+            };
+            (body, val)
+        }
+        Ext::Form => {
+            let (body, pairs): (Vec<u8>, Vec<(String, String)>) = if len == 0 {
+                (vec![], vec![])
+            } else if len == 1 {
+                (b"a".to_vec(), vec![("a".into(), "".into())])
+            } else if len >= 12 && rng.chance(1, 2) {
+                let n1 = rng.below(len - 5 + 1);
+                let n2 = len - 5 - n1;
+                let v1 = String::from_utf8(fill_text(rng, n1, true)).unwrap();
+                let v2 = String::from_utf8(fill_text(rng, n2, true)).unwrap();
+                (format!("a={v1}&b={v2}").into_bytes(), vec![("a".into(), v1), ("b".into(), v2)])
+            } else {
+                let v = String::from_utf8(fill_text(rng, len - 2, true)).unwrap();
+                (format!("a={v}").into_bytes(), vec![("a".into(), v)])
+            };
+            debug_assert_eq!(body.len(), len);
+            (body, Val::Form(pairs))
+        }
+        _ => unreachable!("multipart bodies are built by build_mp"),
+    }
+}
+
+// ------------------------------------------------------------------------------------------------
+// content codings with a sync flush after every plaintext piece
+// ------------------------------------------------------------------------------------------------
+
+enum Enc {
+    Gz(flate2::write::GzEncoder<Vec<u8>>),
+    Zl(flate2::write::ZlibEncoder<Vec<u8>>),
+    Br(Box<brotli::CompressorWriter<Vec<u8>>>),
+    #[cfg(feature = "ffi")]
+    Zs(zstd::stream::write::Encoder<'static, Vec<u8>>),
+}
+
+impl Enc {
+    fn new(c: Coding, rng: &mut Rng) -> Enc {
+        match c {
+            Coding::Gzip => {
+                Enc::Gz(flate2::write::GzEncoder::new(Vec::new(), flate2::Compression::new(rng.range(1, 6) as u32)))
+            }
+            Coding::Deflate => {
+                Enc::Zl(flate2::write::ZlibEncoder::new(Vec::new(), flate2::Compression::new(rng.range(1, 6) as u32)))
+            }
+            Coding::Br => Enc::Br(Box::new(brotli::CompressorWriter::new(
+                Vec::new(),
+                4096,
+                rng.range(0, 4) as u32,
+                rng.range(16, 22) as u32,
+            ))),
+            #[cfg(feature = "ffi")]
+            Coding::Zstd => Enc::Zs(zstd::stream::write::Encoder::new(Vec::new(), rng.range(1, 4) as i32).unwrap()),
+            #[cfg(not(feature = "ffi"))]
+            Coding::Zstd => unreachable!("zstd needs the ffi feature"),
+            Coding::Identity => unreachable!(),
+        }
+    }
+    fn piece(&mut self, data: &[u8]) -> usize {
+        match self {
+            Enc::Gz(e) => {
+                e.write_all(data).unwrap();
+                e.flush().unwrap();
+                e.get_ref().len()
+            }
+            Enc::Zl(e) => {
+                e.write_all(data).unwrap();
+                e.flush().unwrap();
+                e.get_ref().len()
+            }
+            Enc::Br(e) => {
+                e.write_all(data).unwrap();
+                e.flush().unwrap();
+                e.get_ref().len()
+            }
+            #[cfg(feature = "ffi")]
+            Enc::Zs(e) => {
+                e.write_all(data).unwrap();
+                e.flush().unwrap();
+                e.get_ref().len()
+            }
+        }
+    }
+    fn finish(self) -> Vec<u8> {
+        match self {
+            Enc::Gz(e) => e.finish().unwrap(),
+            Enc::Zl(e) => e.finish().unwrap(),
+            Enc::Br(e) => e.into_inner(),
+            #[cfg(feature = "ffi")]
+            Enc::Zs(e) => e.finish().unwrap(),
+        }
+    }
+}
+
+/// Encoded body plus the flush table: `(wire_offset, plain_offset)` — once `wire_offset` bytes of the
+/// wire body have been delivered, at least `plain_offset` plaintext bytes are decodable.
+struct Wire {
+    bytes: Vec<u8>,
+    flush: Vec<(usize, usize)>,
+}
+
+impl Wire {
+    fn identity(plain: &[u8]) -> Wire {
+        Wire { bytes: plain.to_vec(), flush: vec![] }
+    }
+    fn encode(c: Coding, plain: &[u8], cuts: &[usize], rng: &mut Rng) -> Wire {
+        if c == Coding::Identity {
+            return Wire::identity(plain);
+        }
+        let mut enc = Enc::new(c, rng);
+        let mut flush = Vec::with_capacity(cuts.len() + 2);
+        let mut prev = 0;
+        for &cut in cuts.iter().chain(std::iter::once(&plain.len())) {
+            if cut <= prev && !(cut == 0 && plain.is_empty()) {
+                continue;
+            }
+            let w = enc.piece(&plain[prev..cut]);
+            flush.push((w, cut));
+            prev = cut;
+        }
+        let bytes = enc.finish();
+        flush.push((bytes.len(), plain.len()));
+        Wire { bytes, flush }
+    }
+    /// lower bound of the decoded size once `wire_off` bytes were delivered (exact for identity and
+    /// at flush points)
+    fn decoded_lb(&self, wire_off: usize, identity: bool) -> usize {
+        if identity {
+            return wire_off;
+        }
+        let i = self.flush.partition_point(|&(w, _)| w <= wire_off);
+        if i == 0 {
+            0
+        } else {
+            self.flush[i - 1].1
+        }
+    }
+}
+
+/// Independent streaming decode of the delivered chunk sequence with the codec library itself
+/// (write the chunk, flush, count the output): `result[i]` = plaintext bytes available once `i`
+/// chunks were delivered.  This — not the flush table, which only bounds it from above at flush
+/// points — is the decoded size the extractor can have seen (brotli's decoder, for one, releases
+/// the tail of a flushed block only with the next input).
+enum Dec {
+    Gz(flate2::write::GzDecoder<Vec<u8>>),
+    Zl(flate2::write::ZlibDecoder<Vec<u8>>),
+    Br(Box<brotli::DecompressorWriter<Vec<u8>>>),
+    #[cfg(feature = "ffi")]
+    Zs(zstd::stream::write::Decoder<'static, Vec<u8>>),
+}
+
+fn measure_decoded(c: Coding, chunks: &[Bytes]) -> Option<Vec<usize>> {
+    let mut dec = match c {
+        Coding::Gzip => Dec::Gz(flate2::write::GzDecoder::new(Vec::new())),
+        Coding::Deflate => Dec::Zl(flate2::write::ZlibDecoder::new(Vec::new())),
+        Coding::Br => Dec::Br(Box::new(brotli::DecompressorWriter::new(Vec::new(), 4096))),
+        #[cfg(feature = "ffi")]
+        Coding::Zstd => Dec::Zs(zstd::stream::write::Decoder::new(Vec::new()).ok()?),
+        #[cfg(not(feature = "ffi"))]
+        Coding::Zstd => return None,
+        Coding::Identity => return None,
+    };
+    let mut out = Vec::with_capacity(chunks.len() + 1);
+    out.push(0);
+    let mut total = 0usize;
+    for ch in chunks {
+        // the sink is drained after every chunk so that measuring a multi-megabyte body stays cheap
+        let n = match &mut dec {
+            Dec::Gz(d) => {
+                d.write_all(ch).ok()?;
+                d.flush().ok()?;
+                let n = d.get_ref().len();
+                d.get_mut().clear();
+                n
+            }
+            Dec::Zl(d) => {
+                d.write_all(ch).ok()?;
+                d.flush().ok()?;
+                let n = d.get_ref().len();
+                d.get_mut().clear();
+                n
+            }
+            Dec::Br(d) => {
+                d.write_all(ch).ok()?;
+                d.flush().ok()?;
+                let n = d.get_ref().len();
+                d.get_mut().clear();
+                n
+            }
+            #[cfg(feature = "ffi")]
+            Dec::Zs(d) => {
+                d.write_all(ch).ok()?;
+                d.flush().ok()?;
+                let n = d.get_ref().len();
+                d.get_mut().clear();
+                n
+            }
+        };
+        total += n;
+        out.push(total);
+    }
+    Some(out)
+}
+
+// ------------------------------------------------------------------------------------------------
+// chunking
+// ------------------------------------------------------------------------------------------------
+
+/// cut positions (sorted, distinct, strictly inside 0..len) of a `len`-byte sequence around `pivot`
+fn piece_cuts(ch: Chunking, len: usize, pivot: usize, rng: &mut Rng) -> Vec<usize> {
+    let mut v: Vec<usize> = match ch {
+        Chunking::One => vec![],
+        Chunking::Byte1 => {
+            if len <= 2048 {
+                (1..len).collect()
+            } else {
+                let lo = pivot.saturating_sub(40);
+                let hi = (pivot + 40).min(len);
+                let mut v: Vec<usize> = (lo..=hi).collect();
+                let mut p = 0;
+                while p < len {
+                    if p < lo || p > hi {
+                        v.push(p);
+                    }
+                    p += 8191;
+                }
+                v
+            }
+        }
+        Chunking::Random | Chunking::WireRandom | Chunking::WireTiny => {
+            let mut v = rng.cuts(len, 12);
+            if rng.chance(1, 2) && len > 2 {
+                // a burst of tiny pieces somewhere (often at the pivot)
+                let at = if rng.chance(1, 2) { pivot.min(len - 1) } else { rng.below(len) };
+                for d in 0..rng.range(1, 6) {
+                    v.push(at.saturating_sub(2) + d);
+                }
+            }
+            v
+        }
+        Chunking::StraddleA => vec![pivot.saturating_sub(1), pivot + 1],
+        Chunking::StraddleB => vec![pivot, pivot + 1],
+    };
+    v.retain(|&c| c > 0 && c < len);
+    v.sort_unstable();
+    v.dedup();
+    v
+}
+
+// ------------------------------------------------------------------------------------------------
+// a built case: headers, wire chunks, pull budget, expectation
+// ------------------------------------------------------------------------------------------------
+
+#[derive(Clone, Debug)]
+struct MpCfg {
+    field_limit: Option<usize>,
+    memory: usize,
+    total: usize,
+    buffer: Option<usize>,
+}
+
+struct Built {
+    headers: Vec<(String, String)>,
+    chunks: Vec<Bytes>,
+    /// `allowed[i]`: may the payload be polled when `i` chunks have been delivered?
+    allowed: Vec<bool>,
+    /// decoded-size (lower bound) after i chunks — for witnesses
+    decoded_after: Vec<usize>,
+    pend: Vec<bool>,
+    decoded_len: usize,
+    wire_len: usize,
+    expect: Val,
+    declared: Option<usize>,
+    /// is some limit exceeded by the decoded body?
+    over: bool,
+    mp: Option<MpCfg>,
+    /// multipart: description of the parts
+    layout: String,
+    /// largest number of flushed plaintext bytes the reference decoder had not yet released
+    codec_lag: usize,
+    /// the generator could not vouch for its own body
+    selfcheck: Option<String>,
+}
+
+fn declared_len(cl: Cl, wire_len: usize, limit: usize, rng: &mut Rng) -> Option<usize> {
+    match cl {
+        Cl::Absent => None,
+        Cl::True => Some(wire_len),
+        Cl::Low => {
+            let opts = [0, wire_len / 2, wire_len.saturating_sub(1), limit.min(wire_len.saturating_sub(1))];
+            Some(*rng.pick(&opts))
+        }
+        Cl::High => {
+            let opts = [wire_len + 1, wire_len.max(limit) + 1, wire_len * 10 + 100, wire_len.max(limit)];
+            let v = *rng.pick(&opts);
+            Some(if v <= wire_len { wire_len + 1 } else { v })
+        }
+    }
+}
+
+/// Cut the wire body into chunks; returns the chunks, the wire offset reached after `i` chunks
+/// (`ends[i]`, `i` in `0..=chunks.len()`) and the injected-`Pending` plan.
+fn finish_chunks(case: &Case, wire: &[u8], wire_cuts: &[usize], rng: &mut Rng) -> (Vec<Bytes>, Vec<usize>, Vec<bool>) {
+    let whole = Bytes::copy_from_slice(wire);
+    let mut chunks = Vec::with_capacity(wire_cuts.len() + 2);
+    let mut ends = Vec::with_capacity(wire_cuts.len() + 3);
+    ends.push(0);
+    let mut prev = 0;
+    for &c in wire_cuts.iter().chain(std::iter::once(&wire.len())) {
+        if c <= prev || c > wire.len() {
+            continue;
+        }
+        if case.empties && rng.chance(1, 6) {
+            chunks.push(Bytes::new());
+            ends.push(prev);
+        }
+        chunks.push(whole.slice(prev..c));
+        ends.push(c);
+        prev = c;
+    }
+    if case.empties && rng.chance(1, 4) {
+        chunks.push(Bytes::new());
+        ends.push(wire.len());
+    }
+    // Pending before every chunk (each chunk arrives alone) or before a third of them
+    let every = rng.chance(1, 3);
+    let pend = (0..=chunks.len()).map(|_| case.pend && (rng.chance(1, 3) || every)).collect();
+    (chunks, ends, pend)
+}
+
+/// `plain`/`expect` are shared by every chunking of the same body (see `run_group`).
+fn build_plain(case: &Case, plain: &[u8], expect: &Val) -> Built {
+    // chunk-level randomness depends on the chunking, body-level randomness does not
+    let mut rng = Rng::derive(case.seed, 0xC12C, case.chunking as u64 + 1);
+    let identity = case.coding == Coding::Identity || !case.ext.decodes();
+    let limit = case.limit;
+    let cuts = piece_cuts(case.chunking, plain.len(), limit, &mut rng);
+    let wire = if identity { Wire::identity(plain) } else { Wire::encode(case.coding, plain, &cuts, &mut rng) };
+    let wire_cuts: Vec<usize> = if identity {
+        cuts.clone()
+    } else {
+        match case.chunking {
+            Chunking::One => vec![],
+            Chunking::WireRandom => rng.cuts(wire.bytes.len(), 16),
+            Chunking::WireTiny => {
+                let mut v = vec![];
+                let mut p = 0;
+                while p < wire.bytes.len() {
+                    p += if p < 6144 { rng.range(1, 3) } else { rng.range(512, 8192) };
+                    v.push(p);
+                }
+                v.retain(|&c| c < wire.bytes.len());
+                v
+            }
+            _ => {
+                // flush-aligned; the stream trailer rides on the last data chunk or travels alone
+                let mut v: Vec<usize> = wire.flush.iter().map(|f| f.0).collect();
+                v.pop(); // end of stream
+                if rng.chance(1, 2) {
+                    v.pop(); // last flush point: trailer joins the last piece
+                }
+                v.retain(|&c| c > 0 && c < wire.bytes.len());
+                v.dedup();
+                v
+            }
+        }
+    };
+    let wire_len = wire.bytes.len();
+    let (chunks, ends, pend) = finish_chunks(case, &wire.bytes, &wire_cuts, &mut rng);
+    let flush_lb: Vec<usize> = ends.iter().map(|&e| wire.decoded_lb(e, identity)).collect();
+    let mut codec_lag = 0;
+    let mut selfcheck = None;
+    let decoded_after = if identity {
+        flush_lb
+    } else {
+        match measure_decoded(case.coding, &chunks) {
+            Some(m) => {
+                if *m.last().unwrap() != plain.len() {
+                    selfcheck = Some(format!("reference decode of the generated {} body yields {} of {} bytes", case.coding.name(), m.last().unwrap(), plain.len()));
+                }
+                for (a, b) in m.iter().zip(flush_lb.iter()) {
+                    if a < b {
+                        codec_lag = codec_lag.max(b - a);
+                    }
+                }
+                m
+            }
+            None => {
+                selfcheck = Some(format!("reference decoder rejected the generated {} body", case.coding.name()));
+                flush_lb
+            }
+        }
+    };
+    let allowed: Vec<bool> = decoded_after.iter().map(|&d| d <= limit).collect();
+    let mut hrng = Rng::derive(case.seed, 0xC12D, case.cl as u64);
+    let declared = declared_len(case.cl, wire_len, limit, &mut hrng);
+    let mut headers = vec![];
+    match case.ext {
+        Ext::Json => headers.push(("content-type".to_string(), "application/json".to_string())),
+        Ext::Form => {
+            headers.push(("content-type".to_string(), "application/x-www-form-urlencoded".to_string()))
+        }
+        Ext::Str => headers.push(("content-type".to_string(), "text/plain; charset=utf-8".to_string())),
+        _ => {}
+    }
+    if case.coding != Coding::Identity {
+        headers.push(("content-encoding".to_string(), case.coding.name().to_string()));
+    }
+    if let Some(d) = declared {
+        headers.push(("content-length".to_string(), d.to_string()));
+    }
+    Built {
+        headers,
+        chunks,
+        allowed,
+        decoded_after,
+        pend,
+        decoded_len: plain.len(),
+        wire_len,
+        expect: expect.clone(),
+        declared,
+        over: plain.len() > limit,
+        mp: None,
+        layout: String::new(),
+        codec_lag,
+        selfcheck,
+    }
+}
+
+/// Multipart body: parts named `a` (Vec<Bytes>, carries the per-field limit), `b` (Option<Bytes>)
+/// and `x` (unknown to the form: discarded, charged to the total limit only).
+struct MpBody {
+    wire: Vec<u8>,
+    boundary: String,
+    cfg: MpCfg,
+    expect: Val,
+    /// wire offset of the first data byte that exceeds a limit
+    over_at: Option<usize>,
+    /// wire offset at which the limit under test is exactly used up (or end of the last data)
+    pivot: usize,
+    layout: String,
+}
+
+fn gen_mp(ext: Ext, limit: usize, len: usize, rng: &mut Rng) -> MpBody {
+    const BIG: usize = 1 << 30;
+    let slack = |rng: &mut Rng, need: usize| -> usize {
+        if rng.chance(2, 3) {
+            BIG
+        } else {
+            need + rng.below(need + 16)
+        }
+    };
+    // parts: (name, data length)
+    let mut parts: Vec<(&'static str, usize)> = vec![];
+    let split = |rng: &mut Rng, n: usize| -> (usize, usize) {
+        let a = match rng.below(4) {
+            0 => 0,
+            1 => n,
+            2 => n / 2,
+            _ => rng.below(n + 1),
+        };
+        (a, n - a)
+    };
+    let extra = |rng: &mut Rng| -> usize {
+        match rng.below(3) {
+            0 => 0,
+            1 => rng.below(64),
+            _ => rng.below(2 * limit.min(40_000) + 8),
+        }
+    };
+    let cfg;
+    match ext {
+        Ext::MpField => {
+            let (n1, n2) = split(rng, len);
+            parts.push(("a", n1));
+            if rng.chance(1, 2) {
+                parts.push(("b", extra(rng)));
+            }
+            if rng.chance(1, 3) {
+                parts.push(("x", extra(rng)));
+            }
+            parts.push(("a", n2));
+            let all: usize = parts.iter().map(|p| p.1).sum();
+            cfg = MpCfg { field_limit: Some(limit), memory: slack(rng, all), total: slack(rng, all), buffer: None };
+        }
+        Ext::MpMemory => {
+            let (n1, n2) = split(rng, len);
+            if rng.chance(1, 2) {
+                parts.push(("x", extra(rng)));
+            }
+            parts.push(("a", n1));
+            if rng.chance(1, 3) {
+                parts.push(("x", extra(rng)));
+            }
+            parts.push(("b", n2));
+            let all: usize = parts.iter().map(|p| p.1).sum();
+            cfg = MpCfg {
+                field_limit: if rng.chance(1, 2) { Some(slack(rng, n1)) } else { None },
+                memory: limit,
+                total: slack(rng, all),
+                buffer: None,
+            };
+        }
+        _ => {
+            let (n0, rest) = split(rng, len);
+            let (n1, n2) = split(rng, rest);
+            parts.push(("x", n0));
+            parts.push(("a", n1));
+            parts.push(("b", n2));
+            if rng.chance(1, 2) {
+                parts.swap(0, 1);
+            }
+            cfg = MpCfg {
+                field_limit: if rng.chance(1, 2) { Some(slack(rng, n1)) } else { None },
+                memory: slack(rng, n1 + n2),
+                total: limit,
+                buffer: None,
+            };
+        }
+    }
+    let mut cfg = cfg;
+    cfg.buffer = match rng.below(4) {
+        0 => Some(256),
+        1 => Some(1024),
+        _ => None,
+    };
+    let boundary = format!("c12Boundary{:016x}", rng.next());
+    let hostile = rng.chance(1, 3);
+    let part_cl = rng.chance(1, 3);
+    let mut wire = Vec::new();
+    let (mut rem_total, mut rem_mem, mut rem_field) = (cfg.total, cfg.memory, cfg.field_limit);
+    let mut over_at = None;
+    let mut pivot = None;
+    let mut a_vals = vec![];
+    let mut b_val = None;
+    let mut layout = String::new();
+    for (name, n) in &parts {
+        let data: Vec<u8> = if hostile {
+            (0..*n).map(|_| *rng.pick(b"\r\n-a\r-")).collect()
+        } else {
+            fill_bytes(rng, *n)
+        };
+        wire.extend_from_slice(format!("--{boundary}\r\n").as_bytes());
+        wire.extend_from_slice(
+            format!("Content-Disposition: form-data; name=\"{name}\"; filename=\"f.bin\"\r\n").as_bytes(),
+        );
+        wire.extend_from_slice(b"Content-Type: application/octet-stream\r\n");
+        if part_cl {
+            wire.extend_from_slice(format!("Content-Length: {n}\r\n").as_bytes());
+        }
+        wire.extend_from_slice(b"\r\n");
+        let data_off = wire.len();
+        wire.extend_from_slice(&data);
+        wire.extend_from_slice(b"\r\n");
+        layout.push_str(&format!("{name}:{n} "));
+        if over_at.is_some() {
+            continue;
+        }
+        // the reference accounting: every data byte is charged to the total limit, to the memory
+        // limit if the field is kept in memory (a, b), and to the field limit of its name (a only)
+        let in_memory = *name != "x";
+        let mut room = rem_total;
+        if in_memory {
+            room = room.min(rem_mem);
+        }
+        if *name == "a" {
+            if let Some(f) = rem_field {
+                room = room.min(f);
+            }
+        }
+        let under_test_room = match ext {
+            Ext::MpField if *name == "a" => rem_field,
+            Ext::MpMemory if in_memory => Some(rem_mem),
+            Ext::MpTotal => Some(rem_total),
+            _ => None,
+        };
+        if let Some(r) = under_test_room {
+            if pivot.is_none() && r <= *n {
+                pivot = Some(data_off + r);
+            }
+        }
+        if *n > room {
+            over_at = Some(data_off + room);
+            continue;
+        }
+        rem_total -= n;
+        if in_memory {
+            rem_mem -= n;
+        }
+        if *name == "a" {
+            rem_field = rem_field.map(|f| f - n);
+            a_vals.push(data);
+        } else if *name == "b" {
+            b_val = Some(data);
+        }
+    }
+    wire.extend_from_slice(format!("--{boundary}--\r\n").as_bytes());
+    if hostile {
+        layout.push_str("hostile ");
+    }
+    if part_cl {
+        layout.push_str("part-cl ");
+    }
+    let pivot = pivot.unwrap_or(wire.len().saturating_sub(boundary.len() + 8));
+    MpBody { wire, boundary, cfg, expect: Val::Mp { a: a_vals, b: b_val }, over_at, pivot, layout }
+}
+
+fn build_mp(case: &Case, body: &MpBody) -> Built {
+    let mut rng = Rng::derive(case.seed, 0xC12C, case.chunking as u64 + 1);
+    let cuts = piece_cuts(case.chunking, body.wire.len(), body.pivot, &mut rng);
+    let buffer = body.cfg.buffer.unwrap_or(65_536);
+    let over_at = body.over_at;
+    let (chunks, ends, pend) = finish_chunks(case, &body.wire, &cuts, &mut rng);
+    // everything before the first over-limit byte may be consumed, and the parser may hold one full
+    // read-ahead buffer on top of that
+    let allowed: Vec<bool> = ends.iter().map(|&off| over_at.is_none_or(|p| off <= p + buffer)).collect();
+    let decoded_after = ends;
+    let mut hrng = Rng::derive(case.seed, 0xC12D, case.cl as u64);
+    let declared = declared_len(case.cl, body.wire.len(), case.limit, &mut hrng);
+    let mut headers =
+        vec![("content-type".to_string(), format!("multipart/form-data; boundary={}", body.boundary))];
+    if let Some(d) = declared {
+        headers.push(("content-length".to_string(), d.to_string()));
+    }
+    Built {
+        headers,
+        chunks,
+        allowed,
+        decoded_after,
+        pend,
+        decoded_len: case.len,
+        wire_len: body.wire.len(),
+        expect: body.expect.clone(),
+        declared,
+        over: body.over_at.is_some(),
+        mp: Some(body.cfg.clone()),
+        layout: body.layout.clone(),
+        codec_lag: 0,
+        selfcheck: None,
+    }
+}
+
+// ------------------------------------------------------------------------------------------------
+// the probe payload
+// ------------------------------------------------------------------------------------------------
+
+struct ProbeState {
+    chunks: Vec<Bytes>,
+    allowed: Vec<bool>,
+    pend: Vec<bool>,
+    next: usize,
+    pended: bool,
+    polls: u64,
+    cap: u64,
+    capped: bool,
+    /// number of chunks that had been delivered when the first forbidden poll happened
+    first_bad_pull: Option<usize>,
+    bad_pulls: u64,
+    ended: bool,
+}
+
+struct Probe(Rc<RefCell<ProbeState>>);
+
+impl Stream for Probe {
+    type Item = Result<Bytes, PayloadError>;
+    fn poll_next(self: Pin<&mut Self>, cx: &mut Context<'_>) -> Poll<Option<Self::Item>> {
+        let mut s = self.0.borrow_mut();
+        s.polls += 1;
+        if s.polls > s.cap {
+            s.capped = true;
+            return Poll::Ready(Some(Err(PayloadError::Io(io::Error::other("c12 probe: poll cap")))));
+        }
+        let i = s.next.min(s.allowed.len() - 1);
+        if !s.allowed[i] {
+            s.bad_pulls += 1;
+            if s.first_bad_pull.is_none() {
+                s.first_bad_pull = Some(s.next);
+            }
+        }
+        if s.next >= s.chunks.len() {
+            s.ended = true;
+            return Poll::Ready(None);
+        }
+        if s.pend[s.next] && !s.pended {
+            s.pended = true;
+            cx.waker().wake_by_ref();
+            return Poll::Pending;
+        }
+        s.pended = false;
+        let c = s.chunks[s.next].clone();
+        s.next += 1;
+        Poll::Ready(Some(Ok(c)))
+    }
+}
+
+#[derive(Debug, Clone)]
+struct Stats {
+    delivered_chunks: usize,
+    delivered_bytes: usize,
+    polls: u64,
+    first_bad_pull: Option<usize>,
+    bad_pulls: u64,
+    capped: bool,
+    ended: bool,
+}
+
+#[derive(Debug, Clone, PartialEq)]
+enum Out {
+    Ok(Val),
+    /// the extractor's overflow error (variant name)
+    Overflow(String),
+    /// any other error
+    Other(String),
+    /// the extractor future never completed although nothing was withheld
+    Stalled,
+}
+
+impl Out {
+    fn class(&self) -> &'static str {
+        match self {
+            Out::Ok(_) => "ok",
+            Out::Overflow(_) => "overflow",
+            Out::Other(_) => "other-error",
+            Out::Stalled => "stalled",
+        }
+    }
+    fn short(&self) -> String {
+        match self {
+            Out::Ok(v) => format!("Ok({})", val_short(v)),
+            Out::Overflow(s) => format!("Overflow[{s}]"),
+            Out::Other(s) => format!("Err[{s}]"),
+            Out::Stalled => "stalled".into(),
+        }
+    }
+}
+
+// ------------------------------------------------------------------------------------------------
+// multipart form whose field limit is set at run time (mirrors the expansion of
+// `#[derive(MultipartForm)]` with `#[multipart(limit = …)] a: Vec<Bytes>, b: Option<Bytes>`)
+// ------------------------------------------------------------------------------------------------
+
+thread_local! {
+    static MP_FIELD_LIMIT: Cell<Option<usize>> = const { Cell::new(None) };
+}
+
+struct MpForm {
+    a: Vec<MpBytes>,
+    b: Option<MpBytes>,
+}
+
+impl MultipartCollect for MpForm {
+    fn limit(field_name: &str) -> Option<usize> {
+        match field_name {
+            "a" => MP_FIELD_LIMIT.with(|c| c.get()),
+            _ => None,
+        }
+    }
+
+    fn handle_field<'t>(
+        req: &'t HttpRequest,
+        field: Field,
+        limits: &'t mut Limits,
+        state: &'t mut State,
+    ) -> LocalBoxFuture<'t, Result<(), MultipartError>> {
+        match field.name().unwrap() {
+            "a" => Box::pin(<Vec<MpBytes> as FieldGroupReader>::handle_field(
+                req,
+                field,
+                limits,
+                state,
+                DuplicateField::Ignore,
+            )),
+            "b" => Box::pin(<Option<MpBytes> as FieldGroupReader>::handle_field(
+                req,
+                field,
+                limits,
+                state,
+                DuplicateField::Ignore,
+            )),
+            _ => Box::pin(async move { discard_field(field, limits).await }),
+        }
+    }
+
+    fn from_state(mut state: State) -> Result<Self, MultipartError> {
+        Ok(MpForm {
+            a: <Vec<MpBytes> as FieldGroupReader>::from_state("a", &mut state)?,
+            b: <Option<MpBytes> as FieldGroupReader>::from_state("b", &mut state)?,
+        })
+    }
+}
+
+/// Same shape through the real derive macro, with the field limit fixed at 1 KiB.
+mod derived {
+    use actix_multipart::form::{bytes::Bytes as MpBytes, MultipartForm};
+
+    #[derive(MultipartForm)]
+    pub struct MpForm1K {
+        #[multipart(limit = "1 KiB")]
+        pub a: Vec<MpBytes>,
+        pub b: Option<MpBytes>,
+    }
+}
+
+// ------------------------------------------------------------------------------------------------
+// execution
+// ------------------------------------------------------------------------------------------------
+
+fn payload_overflow(e: &PayloadError) -> bool {
+    matches!(e, PayloadError::Overflow)
+}
+
+fn short_err(e: &actix_web::Error) -> String {
+    let s = format!("{e}");
+    s.chars().take(80).collect()
+}
+
+fn classify_err(ext: Ext, e: &actix_web::Error) -> Out {
+    match ext {
+        Ext::Bytes | Ext::Str | Ext::Tbl => match e.as_error::<PayloadError>() {
+            Some(p) if payload_overflow(p) => Out::Overflow("PayloadError::Overflow".into()),
+            _ => Out::Other(short_err(e)),
+        },
+        Ext::Json => match e.as_error::<JsonPayloadError>() {
+            Some(JsonPayloadError::Overflow { .. }) => Out::Overflow("JsonPayloadError::Overflow".into()),
+            Some(JsonPayloadError::OverflowKnownLength { .. }) => {
+                Out::Overflow("JsonPayloadError::OverflowKnownLength".into())
+            }
+            Some(JsonPayloadError::Payload(p)) if payload_overflow(p) => {
+                Out::Overflow("JsonPayloadError::Payload(Overflow)".into())
+            }
+            _ => Out::Other(short_err(e)),
+        },
+        Ext::Form => match e.as_error::<UrlencodedError>() {
+            Some(UrlencodedError::Overflow { .. }) => Out::Overflow("UrlencodedError::Overflow".into()),
+            Some(UrlencodedError::Payload(p)) if payload_overflow(p) => {
+                Out::Overflow("UrlencodedError::Payload(Overflow)".into())
+            }
+            _ => Out::Other(short_err(e)),
+        },
+        Ext::MpField | Ext::MpMemory | Ext::MpTotal => match e.as_error::<MultipartError>() {
+            Some(MultipartError::Payload(p)) if payload_overflow(p) => {
+                Out::Overflow("MultipartError::Payload(Overflow)".into())
+            }
+            _ => Out::Other(short_err(e)),
+        },
+    }
+}
+
+/// virtual-time watchdog: with nothing withheld, an extractor that is still pending when the
+/// runtime has gone idle for this long will never finish
+const STALL_AFTER: Duration = Duration::from_secs(100_000);
+
+async fn watch<T>(f: impl std::future::Future<Output = T>) -> Option<T> {
+    tokio::time::timeout(STALL_AFTER, f).await.ok()
+}
+
+/// Run the extractor under test on the request and payload the application handed to the handler.
+async fn extract(ext: Ext, limit: usize, use_derived: bool, req: &HttpRequest, pl: &mut Payload) -> Out {
+    let raw = |b: Bytes| Val::Raw(b.to_vec());
+    let out = match ext {
+        Ext::Bytes => match watch(Bytes::from_request(req, pl)).await {
+            None => Out::Stalled,
+            Some(Ok(v)) => Out::Ok(raw(v)),
+            Some(Err(e)) => classify_err(ext, &e),
+        },
+        Ext::Str => match watch(String::from_request(req, pl)).await {
+            None => Out::Stalled,
+            Some(Ok(v)) => Out::Ok(Val::Raw(v.into_bytes())),
+            Some(Err(e)) => classify_err(ext, &e),
+        },
+        Ext::Json => match watch(web::Json::<Value>::from_request(req, pl)).await {
+            None => Out::Stalled,
+            Some(Ok(v)) => Out::Ok(Val::Json(v.into_inner())),
+            Some(Err(e)) => classify_err(ext, &e),
+        },
+        Ext::Form => {
+            match watch(web::Form::<Vec<(String, String)>>::from_request(req, pl)).await {
+                None => Out::Stalled,
+                Some(Ok(v)) => Out::Ok(Val::Form(v.into_inner())),
+                Some(Err(e)) => classify_err(ext, &e),
+            }
+        }
+        Ext::Tbl => {
+            let p = web::Payload::from_request(req, pl).await.expect("Payload extractor is infallible");
+            match watch(p.to_bytes_limited(limit)).await {
+                None => Out::Stalled,
+                Some(Err(_)) => Out::Overflow("BodyLimitExceeded".into()),
+                Some(Ok(Ok(v))) => Out::Ok(raw(v)),
+                Some(Ok(Err(e))) => classify_err(ext, &e),
+            }
+        }
+        Ext::MpField | Ext::MpMemory | Ext::MpTotal => {
+            if use_derived {
+                match watch(MultipartForm::<derived::MpForm1K>::from_request(req, pl)).await {
+                    None => Out::Stalled,
+                    Some(Ok(f)) => {
+                        let f = f.into_inner();
+                        Out::Ok(Val::Mp {
+                            a: f.a.into_iter().map(|x| x.data.to_vec()).collect(),
+                            b: f.b.map(|x| x.data.to_vec()),
+                        })
+                    }
+                    Some(Err(e)) => classify_err(ext, &e),
+                }
+            } else {
+                match watch(MultipartForm::<MpForm>::from_request(req, pl)).await {
+                    None => Out::Stalled,
+                    Some(Ok(f)) => {
+                        let f = f.into_inner();
+                        Out::Ok(Val::Mp {
+                            a: f.a.into_iter().map(|x| x.data.to_vec()).collect(),
+                            b: f.b.map(|x| x.data.to_vec()),
+                        })
+                    }
+                    Some(Err(e)) => classify_err(ext, &e),
+                }
+            }
+        }
+    };
+    out
+}
+
+fn exec(case: &Case, b: &Built) -> Result<(Out, Stats), String> {
+    let state = Rc::new(RefCell::new(ProbeState {
+        chunks: b.chunks.clone(),
+        allowed: b.allowed.clone(),
+        pend: b.pend.clone(),
+        next: 0,
+        pended: false,
+        polls: 0,
+        cap: (b.chunks.len() as u64 + b.wire_len as u64) * 4 + 10_000,
+        capped: false,
+        first_bad_pull: None,
+        bad_pulls: 0,
+        ended: false,
+    }));
+    let st2 = state.clone();
+    let ext = case.ext;
+    let limit = case.limit;
+    let headers = b.headers.clone();
+    let mp = b.mp.clone();
+    // the derive-generated form has a fixed 1 KiB field limit: use it whenever that is the case
+    let use_derived = ext.is_mp() && mp.as_ref().map(|m| m.field_limit) == Some(Some(1024)) && case.seed % 2 == 0;
+    let slot: Rc<RefCell<Option<Out>>> = Rc::new(RefCell::new(None));
+    let slot2 = slot.clone();
+    guard(move || {
+        run_virtual(async move {
+            // The request travels through a real `App` service (as `actix_web::test` users do): the
+            // handler receives the `HttpRequest` and the untouched payload and runs the extractor.
+            let mut app = App::new();
+            app = match ext {
+                Ext::Bytes | Ext::Str => app.app_data(web::PayloadConfig::new(limit)),
+                Ext::Json => app.app_data(web::JsonConfig::default().limit(limit)),
+                Ext::Form => app.app_data(web::FormConfig::default().limit(limit)),
+                Ext::Tbl => app,
+                Ext::MpField | Ext::MpMemory | Ext::MpTotal => {
+                    let m = mp.as_ref().unwrap();
+                    MP_FIELD_LIMIT.with(|c| c.set(m.field_limit));
+                    let mut app = app
+                        .app_data(MultipartFormConfig::default().total_limit(m.total).memory_limit(m.memory));
+                    if let Some(bl) = m.buffer {
+                        app = app.app_data(MultipartConfig::default().buffer_limit(bl));
+                    }
+                    app
+                }
+            };
+            let handler = move |req: HttpRequest, pl: web::Payload| {
+                let slot = slot2.clone();
+                async move {
+                    let mut pl = pl.into_inner();
+                    let out = extract(ext, limit, use_derived, &req, &mut pl).await;
+                    *slot.borrow_mut() = Some(out);
+                    HttpResponse::Ok().finish()
+                }
+            };
+            let svc = actix_web::test::init_service(app.default_service(web::to(handler))).await;
+            let mut tr = TestRequest::post().uri("/c12");
+            for (k, v) in &headers {
+                tr = tr.insert_header((k.as_str(), v.as_str()));
+            }
+            let stream: actix_http::BoxedPayloadStream = Box::pin(Probe(st2));
+            let (req, _empty) = tr.to_request().replace_payload(Payload::Stream { payload: stream });
+            let _ = svc.call(req).await;
+            drop(svc);
+        })
+    })?;
+    let out = slot.borrow_mut().take().unwrap_or(Out::Other("handler was not reached".into()));
+    let s = state.borrow();
+    let delivered_bytes = s.chunks[..s.next].iter().map(|c| c.len()).sum();
+    Ok((
+        out,
+        Stats {
+            delivered_chunks: s.next,
+            delivered_bytes,
+            polls: s.polls,
+            first_bad_pull: s.first_bad_pull,
+            bad_pulls: s.bad_pulls,
+            capped: s.capped,
+            ended: s.ended,
+        },
+    ))
+}
+
+// ------------------------------------------------------------------------------------------------
+// oracle
+// ------------------------------------------------------------------------------------------------
+
+fn vsig(case: &Case) -> String {
+    format!(
+        "{}/{}/cl-{}/{}/len{}",
+        case.ext.name(),
+        case.coding.name(),
+        case.cl.name(),
+        case.chunking.name(),
+        lenrel(case.len, case.limit)
+    )
+}
+
+fn describe(case: &Case, b: &Built, out: &Out, st: &Stats) -> String {
+    format!(
+        "extractor={} limit={} decoded_len={} coding={} wire_len={} chunks={} ({}) content-length={:?}{} -> {}; payload: {} chunks / {} wire bytes delivered, {} polls",
+        case.ext.name(),
+        case.limit,
+        b.decoded_len,
+        case.coding.name(),
+        b.wire_len,
+        b.chunks.len(),
+        case.chunking.name(),
+        b.declared,
+        if b.layout.is_empty() { String::new() } else { format!(" parts=[{}] cfg={:?}", b.layout.trim(), b.mp) },
+        out.short(),
+        st.delivered_chunks,
+        st.delivered_bytes,
+        st.polls
+    )
+}
+
+/// Judge one execution.  Returns the outcome for the group (metamorphic) comparison.
+fn judge(case: &Case, b: &Built, res: Result<(Out, Stats), String>, rep: &mut Reporter) -> Option<Out> {
+    rep.eval();
+    let (out, st) = match res {
+        Ok(x) => x,
+        Err(p) => {
+            rep.violation(
+                "panic",
+                &panic_site(&p),
+                &format!("panic in extractor {}: {p}", case.ext.name()),
+                case.to_json(),
+            );
+            return None;
+        }
+    };
+    if let Some(why) = &b.selfcheck {
+        rep.inconclusive(&format!("generator self-check failed: {why}: {}", case.to_json()));
+        return None;
+    }
+    if b.codec_lag > 0 {
+        rep.count(&format!("codec-releases-flushed-bytes-late:{}", case.coding.name()), 1);
+        rep.max(&format!("codec-lag-bytes:{}", case.coding.name()), b.codec_lag as u64);
+    }
+    let declared_over = case.ext.reads_cl() && b.declared.is_some_and(|d| d > case.limit);
+    rep.count(&format!("outcome:{}", out.class()), 1);
+    rep.count(&format!("ext:{}", case.ext.name()), 1);
+    rep.count(&format!("coding:{}", case.coding.name()), 1);
+    rep.count(&format!("chunking:{}", case.chunking.name()), 1);
+    rep.count(&format!("content-length:{}", case.cl.name()), 1);
+    rep.count(&format!("lenrel:{}", lenrel(case.len, case.limit)), 1);
+    rep.count("payload-polls", st.polls);
+    rep.count("payload-chunks-delivered", st.delivered_chunks as u64);
+    rep.max("chunks-in-one-body", b.chunks.len() as u64);
+    rep.max("decoded-len", b.decoded_len as u64);
+    if let Out::Overflow(v) = &out {
+        rep.count(&format!("overflow-variant:{v}"), 1);
+        if st.polls == 0 {
+            rep.count("overflow-before-first-pull(declared-length)", 1);
+        } else {
+            rep.count("overflow-while-streaming", 1);
+            // how far past the limit did the extractor read, in chunks not yet needed? (0 by clause d)
+            rep.max("wire-bytes-delivered-at-overflow", st.delivered_bytes as u64);
+        }
+        if !st.ended && st.delivered_chunks < b.chunks.len() {
+            rep.count("overflow-with-body-left-unread", 1);
+        }
+    }
+    if case.pend {
+        rep.count("cases-with-pending-injected", 1);
+    }
+    // abstract signature: which extractor met which coding, chunking style, Content-Length variant,
+    // limit magnitude and length/limit relation, and how it ended
+    rep.sig(&format!(
+        "{}|{}|{}|{}|L{}|{}|{}{}",
+        case.ext.name(),
+        case.coding.name(),
+        case.chunking.name(),
+        case.cl.name(),
+        limit_class(case.limit),
+        lenrel(case.len, case.limit),
+        out.class(),
+        if matches!(out, Out::Overflow(_)) && st.polls == 0 { "-early" } else { "" },
+    ));
+    if matches!(out, Out::Overflow(_)) {
+        rep.sample("overflow", json!({"case": case.to_json(), "what": describe(case, b, &out, &st)}));
+    } else if matches!(out, Out::Ok(_)) && case.coding != Coding::Identity {
+        rep.sample("ok-compressed", json!({"case": case.to_json(), "what": describe(case, b, &out, &st)}));
+    }
+
+    if st.capped || out == Out::Stalled {
+        // not a C12 verdict: the extractor did not finish (liveness is C15's business)
+        rep.inconclusive(&format!("extractor did not finish: {}", describe(case, b, &out, &st)));
+        return None;
+    }
+
+    // (d) pulls
+    if let Some(i) = st.first_bad_pull {
+        rep.violation(
+            "pull-after-limit",
+            &vsig(case),
+            &format!(
+                "payload polled again after {} chunks had been delivered whose decoded size is ≥ {} > limit {}{} ({} such polls). {}",
+                i,
+                b.decoded_after[i.min(b.decoded_after.len() - 1)],
+                case.limit,
+                if case.ext.is_mp() { " (wire offset of the first over-limit byte + parser buffer exceeded)" } else { "" },
+                st.bad_pulls,
+                describe(case, b, &out, &st)
+            ),
+            case.to_json(),
+        );
+    }
+
+    match &out {
+        Out::Ok(v) => {
+            // (a)
+            if b.over {
+                rep.violation(
+                    "accepted-over-limit",
+                    &vsig(case),
+                    &format!("extractor succeeded although the decoded body exceeds the limit. {}", describe(case, b, &out, &st)),
+                    case.to_json(),
+                );
+            } else if *v != b.expect {
+                rep.violation(
+                    "value-mismatch",
+                    &vsig(case),
+                    &format!("extracted value differs from the decoded body (expected {}). {}", val_short(&b.expect), describe(case, b, &out, &st)),
+                    case.to_json(),
+                );
+            } else if declared_over {
+                rep.count("accepted-despite-declared-length-over-limit(tolerated)", 1);
+            }
+        }
+        Out::Overflow(_) => {
+            if !b.over && !declared_over {
+                // (e) observed, not judged: the statement says "succeed only if within the limit";
+                // it does not promise success for every body within it
+                rep.count("overflow-error-for-body-within-limit(observed, not judged)", 1);
+                let _ = (&out, &st);
+            } else if !b.over {
+                rep.count("early-rejection-by-declared-length-of-small-body(tolerated)", 1);
+            }
+        }
+        Out::Other(e) => {
+            if b.over {
+                // (b)
+                rep.violation(
+                    "missing-overflow",
+                    &vsig(case),
+                    &format!("decoded body exceeds the limit but the extractor failed with a different error ({e}). {}", describe(case, b, &out, &st)),
+                    case.to_json(),
+                );
+            } else if b.expect == Val::Unparsable {
+                rep.count("parse-error-of-unparsable-body(expected)", 1);
+            } else {
+                rep.inconclusive(&format!("valid within-limit body rejected with a non-overflow error: {}", describe(case, b, &out, &st)));
+                return None;
+            }
+        }
+        Out::Stalled => unreachable!(),
+    }
+    Some(out)
+}
+
+/// One body under several chunkings: per-case clauses plus the metamorphic comparison (c).
+fn run_group(base: &Case, chunkings: &[Chunking], rep: &mut Reporter) {
+    let mut brng = Rng::derive(base.seed, 0xC12B, 0);
+    let mut outs: Vec<(Case, bool, Out)> = vec![];
+    let plain_expect;
+    let mp_body;
+    if base.ext.is_mp() {
+        mp_body = Some(gen_mp(base.ext, base.limit, base.len, &mut brng));
+        plain_expect = None;
+    } else {
+        mp_body = None;
+        plain_expect = Some(gen_plain(base.ext, base.len, &mut brng));
+    }
+    for &ch in chunkings {
+        let mut case = base.clone();
+        case.chunking = ch;
+        let built = match (&mp_body, &plain_expect) {
+            (Some(b), _) => build_mp(&case, b),
+            (_, Some((p, e))) => build_plain(&case, p, e),
+            _ => unreachable!(),
+        };
+        let res = exec(&case, &built);
+        let declared_over = case.ext.reads_cl() && built.declared.is_some_and(|d| d > case.limit);
+        if let Some(out) = judge(&case, &built, res, rep) {
+            outs.push((case, declared_over, out));
+        }
+    }
+    // (c) same outcome under every chunking (among runs with the same declared-length relation)
+    for flag in [false, true] {
+        let sel: Vec<&(Case, bool, Out)> = outs.iter().filter(|o| o.1 == flag).collect();
+        if sel.len() < 2 {
+            continue;
+        }
+        rep.count("chunking-groups-compared", 1);
+        for o in &sel[1..] {
+            let same = match (&sel[0].2, &o.2) {
+                (Out::Ok(a), Out::Ok(b)) => a == b,
+                (a, b) => a.class() == b.class(),
+            };
+            if !same {
+                rep.violation(
+                    "chunking-dependent",
+                    &format!(
+                        "{}/{}/cl-{}/{}-vs-{}/len{}",
+                        base.ext.name(),
+                        base.coding.name(),
+                        base.cl.name(),
+                        sel[0].0.chunking.name(),
+                        o.0.chunking.name(),
+                        lenrel(base.len, base.limit)
+                    ),
+                    &format!(
+                        "same body, limit {} and headers: chunking {} gives {}, chunking {} gives {}",
+                        base.limit,
+                        sel[0].0.chunking.name(),
+                        sel[0].2.short(),
+                        o.0.chunking.name(),
+                        o.2.short()
+                    ),
+                    json!({"group": base.to_json(), "chunkings": [sel[0].0.chunking.name(), o.0.chunking.name()]}),
+                );
+            }
+        }
+    }
+}
+
+fn chunkings_for(ext: Ext, coding: Coding) -> Vec<Chunking> {
+    let mut v = vec![Chunking::One, Chunking::Byte1, Chunking::Random, Chunking::StraddleA, Chunking::StraddleB];
+    if ext.decodes() && coding != Coding::Identity {
+        v.push(Chunking::WireRandom);
+        v.push(Chunking::WireTiny);
+    }
+    v
+}
+
+fn codings_for(ext: Ext) -> Vec<Coding> {
+    if ext.decodes() {
+        Coding::ALL.to_vec()
+    } else {
+        vec![Coding::Identity]
+    }
+}
+
+// ------------------------------------------------------------------------------------------------
+// workload
+// ------------------------------------------------------------------------------------------------
+
+const GRID_LIMITS: [usize; 6] = [0, 1, 7, 1024, 32 * 1024, 256 * 1024];
+
+fn grid_lens(limit: usize) -> Vec<usize> {
+    let mut v = vec![limit.saturating_sub(1), limit, limit + 1, 2 * limit, 10 * limit];
+    v.sort_unstable();
+    v.dedup();
+    v
+}
+
+pub fn run(ctx: &Ctx, rep: &mut Reporter) {
+    // ---- replay
+    if let Some(r) = &ctx.replay {
+        if let Some(g) = r.get("group") {
+            if let Some(base) = Case::from_json(g) {
+                let chs: Vec<Chunking> = r["chunkings"]
+                    .as_array()
+                    .map(|a| a.iter().filter_map(|x| x.as_str().and_then(Chunking::parse)).collect())
+                    .unwrap_or_default();
+                run_group(&base, &chs, rep);
+                rep.sig("replay-group");
+                return;
+            }
+        } else if let Some(case) = Case::from_json(r) {
+            run_group(&case, &[case.chunking], rep);
+            rep.sig("replay");
+            return;
+        }
+        rep.inconclusive("unreadable replay case");
+        return;
+    }
+
+    let small = ctx.is_miri();
+    // the sanitizer build is ~50x slower per case: it runs the grid up to 32 KiB and a random phase
+    // biased towards the compressed codings (zstd is the C code ASan is there for)
+    let asan = ctx.layer == "asan";
+
+    // ---- phase A: the grid (exhaustive over the listed classes)
+    let mut gidx = 0u64;
+    let mut complete = true;
+    let mut classes: BTreeMap<String, u64> = BTreeMap::new();
+    'grid: for &ext in Ext::ALL.iter() {
+        for &limit in GRID_LIMITS.iter() {
+            if (small && limit > 1024) || (asan && limit > 32 * 1024) {
+                continue;
+            }
+            for len in grid_lens(limit) {
+                // quick tier: the 10·limit body of the largest limit is left to the thorough tier
+                if !ctx.thorough() && limit == 256 * 1024 && len == 10 * limit {
+                    continue;
+                }
+                for coding in codings_for(ext) {
+                    for &cl in Cl::ALL.iter() {
+                        // multipart and to_bytes_limited never look at Content-Length: two variants
+                        if !ext.reads_cl() && matches!(cl, Cl::Low | Cl::High) {
+                            continue;
+                        }
+                        gidx += 1;
+                        if !ctx.mine(gidx) {
+                            continue;
+                        }
+                        if ctx.out_of_time() {
+                            complete = false;
+                            break 'grid;
+                        }
+                        let base = Case {
+                            ext,
+                            limit,
+                            len,
+                            coding,
+                            chunking: Chunking::One,
+                            cl,
+                            pend: gidx % 3 == 0,
+                            empties: false,
+                            seed: Rng::derive(ctx.seed, 0xA12, gidx).next(),
+                        };
+                        let chs = chunkings_for(ext, coding);
+                        *classes.entry(ext.name().to_string()).or_insert(0) += chs.len() as u64;
+                        run_group(&base, &chs, rep);
+                    }
+                }
+            }
+        }
+    }
+    if asan || small {
+        rep.exhaustive("sanitizer-layer grid (same classes, limits up to 32 KiB)", complete);
+    } else {
+        rep.exhaustive(
+            "grid: extractor × limit{0,1,7,1K,32K,256K} × len{L-1,L,L+1,2L,10L} × coding × content-length × chunking",
+            complete,
+        );
+    }
+    for (k, v) in classes {
+        rep.count(&format!("grid-cases:{k}"), v);
+    }
+
+    // ---- phase B: random cases around random limits
+    let n = if small { 20 } else { ctx.share(24_000, 900_000) };
+    for k in 0..n {
+        if ctx.out_of_time() {
+            break;
+        }
+        let mut rng = Rng::derive(ctx.seed, 0xB12, k * ctx.nshards + ctx.shard);
+        let ext = *rng.pick(&Ext::ALL);
+        let limit = match rng.below(10) {
+            0 => rng.below(4),
+            1..=3 => rng.below(64),
+            4..=6 => rng.range(64, 4096),
+            7 => *rng.pick(&GRID_LIMITS),
+            8 => rng.range(4096, 70_000),
+            _ => {
+                if small || asan {
+                    rng.below(512)
+                } else {
+                    rng.range(60_000, 300_000)
+                }
+            }
+        };
+        let len = match rng.below(8) {
+            0 => limit,
+            1 => limit + 1,
+            2 => limit.saturating_sub(1),
+            3 => (limit + rng.below(8)).saturating_sub(3),
+            4 => rng.below(limit + 1),
+            5 => limit + rng.below(2 * limit + 8),
+            6 => rng.below(3 * limit + 16),
+            _ => (limit * rng.range(2, 10) + rng.below(64)).min(1 << 20),
+        };
+        let codings = codings_for(ext);
+        let coding = if rng.chance(1, 3) && !asan { codings[0] } else { *rng.pick(&codings) };
+        let cl = if ext.reads_cl() { *rng.pick(&Cl::ALL) } else { *rng.pick(&[Cl::Absent, Cl::True]) };
+        let base = Case {
+            ext,
+            limit,
+            len,
+            coding,
+            chunking: Chunking::One,
+            cl,
+            pend: rng.chance(1, 3),
+            empties: rng.chance(1, 4),
+            seed: rng.next(),
+        };
+        let all = chunkings_for(ext, coding);
+        let mut chs = vec![Chunking::One];
+        while chs.len() < 3 {
+            let c = *rng.pick(&all);
+            if !chs.contains(&c) {
+                chs.push(c);
+            }
+        }
+        // `One` is not always the baseline
+        if rng.chance(1, 3) {
+            chs.remove(0);
+        }
+        run_group(&base, &chs, rep);
+    }
+    let _ = Chunking::wire_level;
 }
